@@ -84,6 +84,12 @@ pub fn exec(cx: &mut Ctx, c: &Case) {
             let ty = if c.pos > u32::MAX as u128 { SeekTy::U64 } else { SeekTy::U32 };
             ci.try_seek(ty, c.pos, false).map_err(|_| "seek")?;
         }
+        // one case in eight continues on a copy of the public `state` taken right after the seek
+        // (the only way to duplicate a cipher): the copy must carry the position, mid-block included
+        if (c.kseed >> 40) & 7 == 0 {
+            let snap = ci.snapshot();
+            ci.restore(&*snap, (c.kseed >> 43) & 1 == 1);
+        }
         // half of the cases deliver the slice in two or three consecutive calls (no seek in
         // between), cut at seeded places: the keystream must not depend on the chunking
         let mut cuts: Vec<usize> = Vec::new();
